@@ -381,6 +381,7 @@ pub fn replay(lines: &[String], out: &mut Out) {
                 let budget: usize = t[3].parse().unwrap();
                 with_width!(w, irrun_case, w, &code, &env, budget, out);
             }
+            "bcrun" => out.case(line, &exec_bcrun(&t)),
             "cell" => out.case(line, &crate::dsuites::exec_cell(&t)),
             "mem" => out.case(line, &crate::dsuites::exec_mem(&t)),
             "sv" => out.case(line, &crate::dsuites::exec_sv(&t)),
@@ -393,5 +394,206 @@ pub fn replay(lines: &[String], out: &mut Out) {
             // the case was skipped by its gate (e.g. does not terminate within the gate budget)
             out.case(line, "skipped");
         }
+    }
+}
+
+// ----------------------------------------------------------------------------------------- bcrun
+
+pub fn encode_loc<C: CellType>(l: &hpbf::bc::Loc<C>) -> String {
+    use hpbf::bc::Loc;
+    match l {
+        Loc::Mem(o) => format!("m{o}"),
+        Loc::MemZero(o) => format!("z{o}"),
+        Loc::Tmp(i) => format!("t{i}"),
+        Loc::Imm(c) => format!("i{}", c.into_u64()),
+    }
+}
+
+pub fn encode_bc<C: CellType>(p: &hpbf::bc::Program<C>) -> String {
+    use hpbf::bc::Instr;
+    let mut toks = vec![format!("P:{}:{}:{}", p.temps, p.min_accessed, p.max_accessed)];
+    for (i, ins) in p.insts.iter().enumerate() {
+        let s = match ins {
+            Instr::Noop => "noop".to_string(),
+            Instr::Scan(c, s) => format!("scan:{c}:{s}"),
+            Instr::Mov(s) => format!("mov:{s}"),
+            Instr::Inp(d) => format!("inp:{d}"),
+            Instr::Out(s) => format!("out:{s}"),
+            Instr::BrZ(c, o) => format!("brz:{c}:{o}"),
+            Instr::BrNZ(c, o) => format!("brnz:{c}:{o}"),
+            Instr::Add(d, a, b) => format!("add:{}:{}:{}", encode_loc(d), encode_loc(a), encode_loc(b)),
+            Instr::Sub(d, a, b) => format!("sub:{}:{}:{}", encode_loc(d), encode_loc(a), encode_loc(b)),
+            Instr::Mul(d, a, b) => format!("mul:{}:{}:{}", encode_loc(d), encode_loc(a), encode_loc(b)),
+            Instr::Copy(d, s) => format!("copy:{}:{}", encode_loc(d), encode_loc(s)),
+        };
+        toks.push(format!("{s}@{}", p.live.get(i).copied().unwrap_or(0)));
+    }
+    toks.join(" ")
+}
+
+pub fn decode_bc<C: CellType>(toks: &[&str]) -> Option<hpbf::bc::Program<C>> {
+    use hpbf::bc::{Instr, Loc, Program};
+    let h: Vec<&str> = toks.first()?.split(':').collect();
+    if h.len() != 4 || h[0] != "P" {
+        return None;
+    }
+    let loc = |s: &str| -> Option<Loc<C>> {
+        let (k, b) = s.split_at(1);
+        Some(match k {
+            "m" => Loc::Mem(b.parse().ok()?),
+            "z" => Loc::MemZero(b.parse().ok()?),
+            "t" => Loc::Tmp(b.parse().ok()?),
+            "i" => Loc::Imm(C::from_u64(b.parse().ok()?)),
+            _ => return None,
+        })
+    };
+    let mut insts = Vec::new();
+    let mut live = Vec::new();
+    for t in &toks[1..] {
+        let (ins, lv) = t.split_once('@')?;
+        live.push(lv.parse().ok()?);
+        let p: Vec<&str> = ins.split(':').collect();
+        insts.push(match (p[0], p.len()) {
+            ("noop", 1) => Instr::Noop,
+            ("scan", 3) => Instr::Scan(p[1].parse().ok()?, p[2].parse().ok()?),
+            ("mov", 2) => Instr::Mov(p[1].parse().ok()?),
+            ("inp", 2) => Instr::Inp(p[1].parse().ok()?),
+            ("out", 2) => Instr::Out(p[1].parse().ok()?),
+            ("brz", 3) => Instr::BrZ(p[1].parse().ok()?, p[2].parse().ok()?),
+            ("brnz", 3) => Instr::BrNZ(p[1].parse().ok()?, p[2].parse().ok()?),
+            ("add", 4) => Instr::Add(loc(p[1])?, loc(p[2])?, loc(p[3])?),
+            ("sub", 4) => Instr::Sub(loc(p[1])?, loc(p[2])?, loc(p[3])?),
+            ("mul", 4) => Instr::Mul(loc(p[1])?, loc(p[2])?, loc(p[3])?),
+            ("copy", 3) => Instr::Copy(loc(p[1])?, loc(p[2])?),
+            _ => return None,
+        });
+    }
+    Some(Program {
+        temps: h[1].parse().ok()?,
+        min_accessed: h[2].parse().ok()?,
+        max_accessed: h[3].parse().ok()?,
+        live,
+        insts,
+    })
+}
+
+/// `bcrun <w> <lim> <budget> <fuel> <in> <out> <win> <bytecode...>`: run the given bytecode on the
+/// threaded interpreter. The bytecode must come from `translate` (the interpreter trusts it).
+fn bcrun_exec<C: CellType>(t: &[&str]) -> String {
+    let lim = t[2] == "1";
+    let budget: usize = t[3].parse().unwrap();
+    let env = EnvSpec::decode(t[5], t[6]).unwrap();
+    let win = t[7] == "1";
+    let prog = match decode_bc::<C>(&t[8..]) {
+        Some(p) => p,
+        None => return "bad-request".to_string(),
+    };
+    let exec = BcInterpreter::<C>::verif_from_bc(prog);
+    let r = run_exec::<C>(&exec, &env, &if lim { Mode::Limited(budget) } else { Mode::Unlimited });
+    format!("{} {} {} b{}", r.tag, r.trace, if win { r.window } else { "-".to_string() }, r.budget)
+}
+
+pub fn exec_bcrun(t: &[&str]) -> String {
+    if t.len() < 9 {
+        return "bad-request".to_string();
+    }
+    match t[1] {
+        "8" => bcrun_exec::<u8>(t),
+        "16" => bcrun_exec::<u16>(t),
+        "32" => bcrun_exec::<u32>(t),
+        "64" => bcrun_exec::<u64>(t),
+        _ => "bad-request".to_string(),
+    }
+}
+
+fn bcrun_case<C: CellType>(w: u32, code: &str, env: &EnvSpec, out: &mut Out) {
+    // gate on the in-place interpreter so that unlimited runs terminate
+    let inplace = InplaceInterpreter::<C>::create(code, 0).unwrap();
+    let mut genv = env.clone();
+    if genv.out_ok.is_none() {
+        genv.out_ok = Some(3000);
+    }
+    let g = run_exec::<C>(&inplace, &genv, &Mode::Limited(2000));
+    let terminates = g.tag == "ok";
+    let win = if cfg!(debug_assertions) { 1 } else { 0 };
+    for &lvl in &[0u32, 1, 2, 3] {
+        let ir = match ir::Program::<C>::parse(code) {
+            Ok(p) => p.optimize(lvl),
+            Err(_) => return,
+        };
+        for &(nregs, fuse) in &[(2usize, true), (11usize, false)] {
+            let bc = hpbf::bc::CodeGen::translate(&ir, nregs, fuse);
+            let text = encode_bc(&bc);
+            let ninst = bc.insts.len();
+            for &budget in &[0usize, 1, 3, 40, 3000] {
+                let fuel = (budget + 2) * (ninst + 2) * 4 + 100000;
+                let req = format!("bcrun {w} 1 {budget} {fuel} {} {win} {text}", genv.encode());
+                out.mark(&req);
+                let t: Vec<&str> = req.split_whitespace().collect();
+                let imp = exec_bcrun(&t);
+                out.case(&req, &imp);
+                out.stat("limited");
+            }
+            if terminates {
+                let req = format!("bcrun {w} 0 0 3000000 {} {win} {text}", genv.encode());
+                out.mark(&req);
+                let t: Vec<&str> = req.split_whitespace().collect();
+                let imp = exec_bcrun(&t);
+                out.case(&req, &imp);
+                out.stat("unlimited");
+            }
+        }
+    }
+}
+
+pub fn bcrun(r: &mut Rng, count: usize, out: &mut Out) {
+    for _ in 0..count {
+        let code = random_program(r, out);
+        let env = random_env(r);
+        let w = *r.pick(&WIDTHS);
+        with_width!(w, bcrun_case, w, &code, &env, out);
+    }
+}
+
+// ---------------------------------------------------------------------------------------- irecho
+
+fn irecho_case<C: CellType>(w: u32, code: &str, out: &mut Out) {
+    for &lvl in &[0u32, 1, 2, 3] {
+        if let Ok(p) = ir::Program::<C>::parse(code) {
+            let text = encode_block(&p.optimize(lvl));
+            out.case(&format!("irecho {w} {text}"), &text);
+        }
+    }
+}
+
+pub fn irecho(r: &mut Rng, count: usize, out: &mut Out) {
+    for _ in 0..count {
+        let code = random_program(r, out);
+        let w = *r.pick(&WIDTHS);
+        with_width!(w, irecho_case, w, &code, out);
+    }
+}
+
+// -------------------------------------------------------------------------------------- levelcap
+
+fn levelcap_case<C: CellType>(w: u32, code: &str, out: &mut Out) {
+    if let Ok(p) = ir::Program::<C>::parse(code) {
+        let l3 = encode_block(&p.optimize(3));
+        let mut verdict = "same".to_string();
+        for lvl in [4u32, 5, 7, 100, u32::MAX] {
+            if encode_block(&p.optimize(lvl)) != l3 {
+                verdict = format!("level-{lvl}-differs-from-3 w={w} code={}", hex(code.as_bytes()));
+            }
+        }
+        out.case("const same", &verdict);
+    }
+}
+
+/// Levels above 3 behave like level 3: the optimised IR is identical.
+pub fn levelcap(r: &mut Rng, count: usize, out: &mut Out) {
+    for _ in 0..count {
+        let code = random_program(r, out);
+        let w = *r.pick(&WIDTHS);
+        with_width!(w, levelcap_case, w, &code, out);
     }
 }
